@@ -205,7 +205,7 @@ static void ec2DblLD(word b[], const word a[], const ec_o* ec, void* stack)
 	// za == 0 или xa == 0? => b <- O
 	if (qrIsZero(ecZ(a, n), ec->f) || qrIsZero(ecX(a), ec->f))
 	{
-		qrSetZero(ecZ(b, n), ec->f);
+		wwSetZero(b, 3 * n);
 		return;
 	}
 	// t1 <- xa za [A]
@@ -259,7 +259,7 @@ static void ec2DblALD(word b[], const word a[], const ec_o* ec, void* stack)
 	// xa == 0? => b <- O
 	if (qrIsZero(ecX(a), ec->f))
 	{
-		qrSetZero(ecZ(b, n), ec->f);
+		wwSetZero(b, 3 * n);
 		return;
 	}
 	// zb <- xa^2 [C]
@@ -340,7 +340,7 @@ static void ec2AddLD(word c[], const word a[], const word b[],
 			ec2DblLD(c, a, ec, stack);
 		// t3 != t4 => a == -b => c <- O
 		else
-			qrSetZero(ecZ(c, n), ec->f);
+			wwSetZero(c, 3 * n);
 		return;
 	}
 	// t5 <- t1 + t2 [E]
@@ -427,7 +427,7 @@ static void ec2AddALD(word c[], const word a[], const word b[],
 			ec2DblALD(c, b, ec, stack);
 		// t1 != 0 => a == -b => c <- O
 		else
-			qrSetZero(ecZ(c, n), ec->f);
+			wwSetZero(c, 3 * n);
 		return;
 	}
 	// t3 <- t2 za [C]
